@@ -407,9 +407,14 @@ Definition slice_info_of (ds : list dimd) : option slice_info :=
 Definition slice_tensor (ds : list dimd) (data : list xq) (si : slice_info) (k : nat) : tensor :=
   slice_at (si_ndim si) (si_table_mr si) k
            (take_valid_ord ds (of_flat (raw_shape ds) data)).
-(* counts_with_missings[_slice_idx_expr]: raw slice, k is used as a RAW offset *)
+(* CubeMeasures.unconditional_cube_counts: the payload offset of the k-th VALID table element
+   (cube.dimensions[0].valid_elements.element_idxs[k]); k itself below three dimensions *)
+Definition table_offset (ds : list dimd) (si : slice_info) (k : nat) : nat :=
+  if si_ndim si <? 3 then k else match ds with d :: _ => nth k (dvalid d) 0 | [] => k end.
+(* counts_with_missings[_slice_idx_expr(cube, table offset)]: the raw slice (missing elements of
+   every dimension retained) of the table element of partition k *)
 Definition raw_slice_tensor (ds : list dimd) (data : list xq) (si : slice_info) (k : nat) : tensor :=
-  slice_at (si_ndim si) (si_table_mr si) k (of_flat (raw_shape ds) data).
+  slice_at (si_ndim si) (si_table_mr si) (table_offset ds si k) (of_flat (raw_shape ds) data).
 
 Definition oapp {A B} (f : A -> B) (o : option A) : option B :=
   match o with Some a => Some (f a) | None => None end.
